@@ -430,13 +430,17 @@ def run_property(pid, tier='quick', seed=0, replay_file=None, nproc=None):
     print(summ)
     if merged['guards']:
         print('  guards: ' + ', '.join('%s=%d' % kv for kv in sorted(merged['guards'].items())))
+    # a violation that was confirmed by replay stands on its own: harness trouble elsewhere in the run (a crashed shard, a
+    # coverage guard that the broken behaviour itself starved) is reported but does not turn the verdict into 'broken check'
     if harness_err:
         for where, e in harness_err[:5]:
             print('HARNESS-ERROR %s: %s' % (where, e), file=sys.stderr)
-        return 2
+        if not new_viol:
+            return 2
     if vacuous:
-        print('HARNESS-ERROR vacuous exploration: ' + '; '.join(vacuous), file=sys.stderr)
-        return 2
+        print('HARNESS-%s vacuous exploration: %s' % ('WARNING' if new_viol else 'ERROR', '; '.join(vacuous)), file=sys.stderr)
+        if not new_viol:
+            return 2
     if new_viol:
         return 1
     if replay_file:
